@@ -32,6 +32,7 @@ var (
 )
 
 var site, done int
+var allPkgs []*packages.Package
 
 func pick() bool {
 	k := site
@@ -53,6 +54,7 @@ func main() {
 		os.Exit(2)
 	}
 	files := 0
+	allPkgs = pkgs
 	for _, p := range pkgs {
 		if len(p.Errors) > 0 {
 			fmt.Fprintln(os.Stderr, "type errors:", p.Errors)
@@ -603,6 +605,96 @@ func rewrite(p *packages.Package, f *ast.File) {
 			b.List = out
 			return true
 		})
+	case "rename-locals":
+		// every local variable, parameter and named result gets another name (collisions are impossible: the suffix is fresh)
+		for id, o := range info.Defs {
+			v, ok := o.(*types.Var)
+			if !ok || v.IsField() || id.Name == "_" || v.Parent() == nil || v.Parent() == v.Pkg().Scope() {
+				continue
+			}
+			if id.Pos() < f.Pos() || id.End() > f.End() {
+				continue
+			}
+			// receivers of methods named in interfaces etc. are fine; keep `err`? no: everything
+			site++
+			done++
+			id.Name = id.Name + "Zq"
+		}
+		for id, o := range info.Uses {
+			v, ok := o.(*types.Var)
+			if !ok || v.IsField() || id.Name == "_" || v.Parent() == nil || v.Parent() == v.Pkg().Scope() {
+				continue
+			}
+			if id.Pos() < f.Pos() || id.End() > f.End() {
+				continue
+			}
+			if v.Pkg() != p.Types {
+				continue
+			}
+			id.Name = v.Name() + "Zq"
+		}
+		// type switch `switch x := y.(type)`: the declared identifier has no object of its own; the clauses' implicit objects carry its name
+		ast.Inspect(f, func(n ast.Node) bool {
+			if ts, ok := n.(*ast.TypeSwitchStmt); ok {
+				if as, ok := ts.Assign.(*ast.AssignStmt); ok && len(as.Lhs) == 1 {
+					if id, ok := as.Lhs[0].(*ast.Ident); ok && id.Name != "_" && !strings.HasSuffix(id.Name, "Zq") {
+						id.Name += "Zq"
+					}
+				}
+			}
+			return true
+		})
+	case "rename-private":
+		// every unexported package-level function, method (not declared by an interface) and struct field of the module gets another name
+		ifaceMethods := map[string]bool{}
+		for _, pk := range allPkgs {
+			sc := pk.Types.Scope()
+			for _, name := range sc.Names() {
+				if tn, ok := sc.Lookup(name).(*types.TypeName); ok {
+					if it, ok := tn.Type().Underlying().(*types.Interface); ok {
+						for i := 0; i < it.NumMethods(); i++ {
+							ifaceMethods[it.Method(i).Name()] = true
+						}
+					}
+				}
+			}
+		}
+		rename := func(o types.Object) bool {
+			if o == nil || o.Pkg() == nil || !strings.HasPrefix(o.Pkg().Path(), "github.com/gardenbed/emerge") || o.Exported() || o.Name() == "_" || o.Name() == "main" || o.Name() == "init" {
+				return false
+			}
+			switch x := o.(type) {
+			case *types.Func:
+				if ifaceMethods[x.Name()] {
+					return false
+				}
+				return true
+			case *types.Var:
+				if x.IsField() {
+					return !x.Embedded()
+				}
+				return x.Parent() == x.Pkg().Scope() // package-level variable
+			}
+			return false
+		}
+		for id, o := range info.Defs {
+			if id.Pos() < f.Pos() || id.End() > f.End() {
+				continue
+			}
+			if rename(o) {
+				site++
+				done++
+				id.Name = o.Name() + "Zp"
+			}
+		}
+		for id, o := range info.Uses {
+			if id.Pos() < f.Pos() || id.End() > f.End() {
+				continue
+			}
+			if rename(o) {
+				id.Name = o.Name() + "Zp"
+			}
+		}
 	case "split-and":
 		// if a && b { X }  ->  if a { if b { X } }   (no else, no init)
 		astutil.Apply(f, nil, func(c *astutil.Cursor) bool {
